@@ -46,7 +46,23 @@ CHECKS = {
 }
 
 KINDS = ('thread', 'process', 'remote')
-STEP_BOUND = 6.0       # seconds a history may take (plus 0.5 s per call) before the current call is declared hung
+STEP_BOUND = 6.0       # kept for callers: the per-call bounds below are what is enforced
+# every real call has its own bound (seconds); a call that exceeds it is recorded as hung, the worker is killed and
+# the replay ends.  Calls that return at once / calls that legitimately wait for the child or for terminate's grace.
+QUICK_OPS = ('enq', 'enq@raise', 'enq@stuck', 'enq@busy', 'enq@slow', 'enq@bad', 'enq@linger', 'nextnb', 'close', 'alive', 'kill', 'release')
+BOUND_QUICK, BOUND_BLOCKING, BOUND_CONSTRUCT = 3.0, 8.0, 15.0
+
+
+def _kill_same(pid, start, sig=signal.SIGKILL):
+    """Signal a process only if it is still the one recorded at creation (pids are recycled within minutes here)."""
+    if pid == os.getpid() or start is None or _proc_start(pid) != start:
+        return False
+    try:
+        os.kill(pid, sig)
+        return True
+    except OSError:
+        return False
+
 SETTLE_BOUND = 2.0
 
 # --------------------------------------------------------------------------- real executions
@@ -165,7 +181,7 @@ class Replay:
 
     def begin_inc(self):
         w = self.w
-        inc = dict(enq=[], raw=[], late=[], calls=[], bempty=[], first='none', alive0='T' if w.is_alive() else 'F',
+        inc = dict(enq=[], raw=[], late=[], calls=[], bempty=[], hung=[], first='none', alive0='T' if w.is_alive() else 'F',
                    waited='none', result={'k': 'na', 'n': 0}, fault='none', id=self.idnum(), name=str(w.name),
                    userid=str(w.userid), endk='final', oldos='na', rraised=[])
         self.incs.append(inc)
@@ -376,7 +392,8 @@ class Replay:
             self.late = True
             if inc['fault'] == 'none':
                 inc['fault'] = 'kill'
-            os.kill(w.pid, signal.SIGKILL)
+            if self.child[0] == w.pid:
+                _kill_same(*self.child)
             return 'ok'
         if op == 'release':
             open(self.flags[-1], 'w').close()
@@ -436,15 +453,15 @@ class Replay:
 
     def body(self):
         try:
-            self.current = 'construct'
+            self.enter('construct', None, BOUND_CONSTRUCT)
             self.construct()
             for n, st in enumerate(self.job['hist']):
                 if self.hung:
                     return
                 op, hasdata, cstate = st[0], st[2], st[3]
-                self.current = 'settle before step %d %s' % (n, op)
+                self.enter('settle before step %d %s' % (n, op), None, 4 * SETTLE_BOUND)
                 self.settle(hasdata, cstate, st[4] if len(st) > 4 else 1)
-                self.current = 'step %d %s' % (n, op)
+                self.enter('step %d %s' % (n, op), op, BOUND_QUICK if op in QUICK_OPS else BOUND_BLOCKING)
                 try:
                     out = self.step(op)
                 except MachineryError:
@@ -458,35 +475,59 @@ class Replay:
                 if self.hung:
                     return
                 self.outs.append(out)
-            self.current = 'finish'
+            self.enter('finish', 'wait', BOUND_BLOCKING + 4)
             self.finish_history()
             self.finished = True
             self.current = None
         except BaseException as e:  # noqa
             self.notes.append('aborted in %s: %r' % (self.current, e))
 
+    def enter(self, label, op, bound):
+        self.current = label
+        self.phase = (label, op, bound, time.time())
+
     def cleanup(self):
+        if self.hung and self.kind == 'thread' and self.w is not None:
+            # let a thread child end (it cannot be killed), so that whatever polls for its death is released
+            def stop(w=self.w):
+                try:
+                    w.close()
+                    w.terminate(0.5)
+                except BaseException:  # noqa
+                    pass
+            t = threading.Thread(target=stop, name='stop-thread-worker', daemon=True)
+            t.start()
+            t.join(1.5)
         for f in self.flags:
             try:
                 open(f, 'w').close()
             except OSError:
                 pass
         for pid, start in self.pids:
-            if pid != os.getpid() and start is not None and _proc_start(pid) == start and _os_alive_pid(pid):
-                try:
-                    os.kill(pid, signal.SIGKILL)
-                except OSError:
-                    pass
+            if _os_alive_pid(pid):
+                _kill_same(pid, start)
 
-    def run(self, step_bound=STEP_BOUND):
+    def run(self, scale=1.0):
+        """Runs the history in a thread of its own; this thread is the per-call watchdog."""
+        self.phase = ('start', None, BOUND_CONSTRUCT, time.time())
         th = threading.Thread(target=self.body, name='replay-' + str(self.job['id']), daemon=True)
         th.start()
-        bound = step_bound + 0.5 * len(self.job['hist'])
-        th.join(bound)
-        hung = self.hung = th.is_alive()
+        hung = False
+        while True:
+            th.join(0.02)
+            if not th.is_alive():
+                break
+            label, op, bound, t0 = self.phase
+            if time.time() - t0 > max(0.7, bound * scale):
+                hung = True
+                break
+        self.hung = hung
         if hung:
-            self.notes.append('hang in %s' % self.current)
-            self.outs.append('hang')
+            label, op, bound, t0 = self.phase
+            self.notes.append('hang in %s' % label)
+            self.outs.append('hung')
+            if op is not None and self.incs:
+                self.incs[-1]['hung'].append(op)        # judged: a call of an enabled history did not return
             try:        # where the real call is stuck (innermost frames of the replay thread)
                 import traceback
                 fr = sys._current_frames().get(th.ident)
@@ -503,13 +544,13 @@ class Replay:
                     wch = [open('/proc/%d/task/%s/wchan' % (pid, k)).read() for k in tasks]
                     self.notes.append('child pid %d state %s tasks %s' % (pid, st, wch))
                     if os.environ.get('VERIF_PAPI_DEBUG'):      # python stacks of the child on the runner's stderr
-                        os.kill(pid, signal.SIGABRT)
+                        _kill_same(pid, self.child[1] if self.child and self.child[0] == pid else None, signal.SIGABRT)
                         time.sleep(0.3)
                 except Exception as e:  # noqa
                     self.notes.append('child: %r' % (e,))
         self.cleanup()
         if hung:
-            th.join(3)
+            th.join(1.5)
         for inc in self.incs:
             inc.setdefault('error', 'na')
         rec = {'id': str(self.job['id']),
@@ -570,7 +611,7 @@ def runner_main(jobfile, outfile):
         hangs = 0
         for j in jobs:
             # when the code under test hangs systematically, do not spend the whole budget waiting for it
-            res = Replay(j, mods, addr, tmp).run(STEP_BOUND if hangs < 3 else 1.5)
+            res = Replay(j, mods, addr, tmp).run(1.0 if hangs < 3 else 0.25)
             hangs = hangs + 1 if any(n.startswith('hang') for n in res['notes']) else 0
             if server is not None and j['kind'] == 'remote' and (res['notes'] or not res['finished']):
                 # a replay that went wrong must not poison the following ones: they get a fresh server
@@ -578,10 +619,10 @@ def runner_main(jobfile, outfile):
                 res['notes'].append('server alive afterwards: %s' % alive)
                 if hangs or not alive:
                     try:
-                        spid = server.pid
+                        spid, sstart = server.pid, _proc_start(server.pid)
                         server.terminate(timeout=1, force=True)
                         if _os_alive_pid(spid):
-                            os.kill(spid, signal.SIGKILL)
+                            _kill_same(spid, sstart)
                     except Exception:  # noqa
                         pass
                     server = spawn_server(('127.0.0.1', 0))
@@ -593,10 +634,10 @@ def runner_main(jobfile, outfile):
     finally:
         if server is not None:
             try:
-                spid = server.pid
+                spid, sstart = server.pid, _proc_start(server.pid)
                 server.terminate(timeout=2, force=True)
                 if _os_alive_pid(spid):
-                    os.kill(spid, signal.SIGKILL)
+                    _kill_same(spid, sstart)
             except Exception:  # noqa
                 pass
     with open(outfile, 'w') as f:
